@@ -14,3 +14,11 @@ chk('C10', 'model_checking',
     'Same state graph as C02: in every reachable state, for every edge of every leaf, neighbour_elements() is compared with the geometric neighbour set of the reference (seam identified), with the <=2, leaf-only, symmetry and boundary/glued-flag clauses.',
     'Trusted: geometric adjacency predicate of mc/refmesh.py; depth bounds as reported.',
     'explicit-state model checking of the implementation (BFS over operation histories, geometric oracle per edge)', 'DESIGN.md 4/C10', 'E1-mesh-explorer')
+chk('C06', 'model_checking',
+    'On every fingerprint-distinct mesh state of the listed BFS graphs: every indicator vector over {0,1,2} (isotropic 3^N, anisotropic 3^(2N) / <=3 non-zeros) x theta in {1/4,1/2,3/4,0.9}, every subset (pair of subsets) as marked set, and two-step sequences (thorough) are executed on a fresh replay of the real mesh; marks observed at the top-level refine calls are checked to be an admissible shortest prefix and the final leaf set to equal the reference two-phase closure; no call may fail.',
+    'Trusted: reference model; indicator alphabet {0,1,2} realises all weak orders on small meshes; theta alphabet; mesh sizes N<=9 (quick) / 12 (thorough) for subsets.',
+    'explicit-state model checking of the implementation (every state x every input of a bounded alphabet, reference marking rule + closure)', 'DESIGN.md 4/C06', 'E1-mesh-explorer')
+chk('C19', 'model_checking',
+    'refine_grading(sigma in {1,1.5,2}, K=4) is applied, on a fresh replay, at every fingerprint-distinct state of the BFS graphs rooted at the shipped curves (depth 2-4 quick, up to 6 thorough) and at shallow graphs rooted at directed deep histories; it must return within a rigorous bisection bound, only refine, put every leaf in the window (exact rational comparison) and keep all C02/C10 invariants.',
+    'Trusted: reference invariants; the bisection bound derivation in props/C19.py; custom anisotropic root grids excluded (documented non-goal).',
+    'explicit-state model checking of the implementation (grading as a leaf transition at every reachable state, termination by rigorous horizon)', 'DESIGN.md 4/C19', 'E1-mesh-explorer')
